@@ -306,6 +306,17 @@ def main():
               {"name": "gcc-O1-trigraphs-uchar", "cc": "gcc", "cflags": ("-O1", "-trigraphs", "-funsigned-char")}]
     if tier != "quick":
         builds.append({"name": "clang-O2", "cc": "clang", "cflags": ("-O2",)})
+    # the host refuses to give more memory (its realloc fails): memory.grow answers -1 and the memory stays usable, size and contents
+    full = build_module(5)
+    full["memory"] = dict(full["memory"], hostfull=True)
+    fcall = lambda e, *a: {"op": "call", "inst": 1, "export": e, "args": list(a)}
+    st_, ld_ = "st_i32_store_0", "ld_i32_load_0"
+    fullitems = [{"id": "hostfull", "module": full,
+                  "script": [{"op": "instantiate", "binds": {"mem": 0, "table": 0, "globals": []}},
+                             fcall(st_, arg("i32", 100), arg("i32", 0x11223344)), fcall("grow", arg("i32", 1)), fcall("size"), fcall(ld_, arg("i32", 100)),
+                             fcall("grow", arg("i32", 4)), fcall("grow", arg("i32", 5)), fcall(st_, arg("i32", PAGE - 4), arg("i32", 7)), fcall(ld_, arg("i32", PAGE - 4)),
+                             fcall("grow", arg("i32", 0)), fcall("size"), fcall("fill", arg("i32", 0), arg("i32", 9), arg("i32", 16)), fcall(ld_, arg("i32", 8)),
+                             fcall(ld_, arg("i32", PAGE)), fcall("size")]}]
     # per-instance segment state: one instance drops a segment, another instance of the same module still initialises from it
     two = build_module(3)
     INSTOP = {"op": "instantiate", "binds": {"mem": 0, "table": 0, "globals": []}}
@@ -336,6 +347,13 @@ def main():
     # a C library that is as unhelpful as the standard allows (fresh bytes not zero, realloc moves, overlapping memcpy reported)
     builds.append(machine.HOSTILE_LIBC)
     st, exp = machine.replay(v, items, builds, sigfn=sig)
+    stf, _ = machine.replay(v, fullitems, [{"name": "gcc-O1-host-out-of-memory", "cc": "gcc", "cflags": ("-O1",), "defs": ("-Drealloc=verif_failing_realloc",),
+                                            "extra_srcs": [os.path.join(common.BINDC, "realloc_fails.c")]},
+                                           {"name": "gcc-O2-asan-host-out-of-memory", "cc": "gcc", "cflags": ("-O2", "-fsanitize=address"), "defs": ("-Drealloc=verif_failing_realloc",),
+                                            "extra_srcs": [os.path.join(common.BINDC, "realloc_fails.c")], "run_env": {"ASAN_OPTIONS": "detect_leaks=0"}}],
+                             sigfn=lambda it, k, why, b, e, a: "grow:host-out-of-memory:%s" % why.split(":")[0])
+    for k_ in ("states", "transitions"):
+        st[k_] += stf[k_]
     wd2 = common.scratch("c05af-")
     try:
         alloc_failure(v, wd2)
